@@ -178,6 +178,9 @@ def _newmark_case(args, t0):
     elif ic == "d0":
         d0s, v0s = d0, [0] * n
         kw = dict(d0=alg.sym_array(d0 + ([0] if rf else [])))
+    elif ic == "v0":                 # initial velocity only: d0 omitted, the fictitious sample u_-1 = -v0 h is not zero
+        d0s, v0s = [0] * n, v0
+        kw = dict(v0=alg.sym_array(v0 + ([0] if rf else [])))
     else:
         d0s, v0s = d0, v0
         kw = dict(d0=alg.sym_array(d0 + ([0] if rf else [])), v0=alg.sym_array(v0 + ([0] if rf else [])))
@@ -465,6 +468,38 @@ def cdf_diag_identity(seed):
         res_ = Mp @ sol_.a + Cp @ sol_.v + Kp @ sol_.d - Fp
         if abs(res_).max() > 1e-8 * abs(Fp).max():
             return ev, dict(what="%s(pre_eig=True): M a + C v + K d != F in physical coordinates" % cls_.__name__, max_residual=float(abs(res_).max()))
+    # nonlinear terms in floating point: the result depends on the VALUES the user function returns, not on their NumPy element type or container - a bump stop that
+    # returns integer zeros while the gap is open (and floats afterwards) must give the same d, v, a, z as one returning float zeros; and the documented recurrence holds
+    hN = 0.002
+    tN = np.arange(0, 0.3, hN)
+    FN = np.vstack((40 * np.sin(25 * tN), 10 * np.cos(11 * tN)))
+    Tnl = np.array([[1.0, 0.0], [0.0, 1.0]])
+
+    def mk(kind):
+        def bump(d, j, h, gap=None, kc=None):
+            pen = d[:, j] - gap
+            if np.all(pen <= 0):
+                return {"int": np.array([0, 0]), "float": np.array([0.0, 0.0]), "f32": np.zeros(2, np.float32), "list": np.array([0, 0], dtype=object)}[kind]
+            return -kc * np.maximum(pen, 0.0)
+        return bump
+    sols = {}
+    for kind in ("float", "int", "f32"):
+        for mats in ((np.diag(M), np.diag(B), np.diag(K)), (M, B, K)):
+            ts_ = ode.SolveNewmark(*mats, hN)
+            ts_.def_nonlin({"stop": (mk(kind), Tnl, dict(gap=np.array([0.004, 0.002]), kc=4000.0))})
+            so_ = ts_.tsolve(FN)
+            ev += 1
+            sols[(kind, mats[0].ndim)] = so_
+    for nd_ in (1, 2):
+        ref_ = sols[("float", nd_)]
+        if not (abs(ref_.z["stop"]).max() > 0):
+            return ev, dict(what="harness: the bump stop never engaged")
+        for kind in ("int", "f32"):
+            so_ = sols[(kind, nd_)]
+            if not all(np.array_equal(getattr(so_, q_), getattr(ref_, q_)) for q_ in ("d", "v", "a")) or not np.array_equal(so_.z["stop"], ref_.z["stop"]):
+                return ev, dict(what="SolveNewmark with a nonlinear term: the solution depends on the element type of the first value the user function returns "
+                                     "(%s zeros while inactive vs float zeros)" % kind, matrices="diagonal" if nd_ == 1 else "full",
+                                max_difference=float(abs(so_.d - ref_.d).max()))
     r = [errs["newmark"][i] / errs["newmark"][i + 1] for i in range(2)]
     if not all(x > 1.7 for x in r):
         return ev, dict(what="SolveNewmark error does not shrink under step halving", ratios=r, errors=errs["newmark"])
@@ -487,7 +522,8 @@ def run(tier, seed):
     ncases = [("unc", "vector", False, False, "d0v0", 4), ("unc", "none", True, False, "d0v0", 4), ("unc", "vector", True, "quad", "d0", 3), ("unc", "vector", False, "lin", "d0v0", 4),
               ("unc", "singular", False, False, "d0v0", 4), ("unc", "vector", False, False, "zero", 2), ("unc", "vector", False, "quad", "d0", 2), ("unc", "none", False, "quad", "zero", 3), ("unc", "vector", False, "lin2", "d0v0", 3), ("coupled", "matrix", False, "lin2", "d0", 3),
               ("coupled", "matrix", False, False, "d0v0", 3), ("coupled", "none", True, False, "d0v0", 3), ("coupled", "matrix", False, "lin", "d0", 3),
-              ("coupled", "singular", False, False, "d0v0", 3), ("coupled", "matrix", True, "quad", "d0v0", 2), ("coupled", "matrix", False, False, "zero", 4)]
+              ("coupled", "singular", False, False, "d0v0", 3), ("coupled", "matrix", True, "quad", "d0v0", 2), ("coupled", "matrix", False, False, "zero", 4),
+              ("coupled", "matrix", False, False, "v0", 3), ("unc", "vector", False, False, "v0", 3), ("coupled", "none", True, "lin", "v0", 2)]
     ccases = [(c, o, mf) for c in ("SolveUnc-cdf", "SolveCDF") for o in (0, 1) for mf in ("vector", "none")]
     P = report.pool()
     r1 = P.map_async(newmark_case, ncases, chunksize=1)
